@@ -177,6 +177,7 @@ def run(ctx):
         oracle(ctx, s)
         nx += 1
     ctx.count('crossing sequences (bounded exhaustive)', nx)
+    child_shape_sweep(ctx)
     ctx.count('vocabulary/mixed-nesting inputs', len(extra))
     for s in extra:
         oracle(ctx, s)
@@ -254,7 +255,72 @@ def domain_delimsafe(ctx, inputs):
     ctx.dist['delimsafe_statements_outside'] = unsafe
 
 
+
+# --- red-team pass 3: child-level shape, model-free -----------------------------------------------------------------------------------
+CHILD_PIECES = ['x', '1', "'s'", '*', '+', '-', '=', '<>', '::', ':=', '.', ',', ';', '?', ':p', '%s', '@v', '"q"', '`q`', '||', 'x.y', 'f(x)', 'x y', 'x as y', 'x as',
+                'as y', 'as', 'x::int', '::int', 'x =', '= x', 'x +', '+ x', 'x ,', ', x', 'x.', '.x', 'x :=', ':= x', '-- c\n', '/* c */', 'x -- c\n', 'x /* c */',
+                "date '2020'", 'over (x)', 'x desc', 'desc', 'asc', 'x asc', 'null', 'not null', 'x is null', 'in (1)', 'x in', 'between 1 and 2', 'x[1]', '[1]', '1 desc',
+                "'s' desc", 'at time zone', "x at time zone 'u'", 'values (1)', 'where x', 'order by x']
+
+
+def child_shape_inputs(ctx):
+    """every dictionary word and every punctuation/operator/clause piece as the ONLY content, the first and the last content of each of the six
+    kinds of group: the passes that run after the matching passes may wrap the content, never the delimiters"""
+    import props.C18 as C18
+    words = C18.all_dictionary_words()
+    if ctx.quick():
+        words = [w for i, w in enumerate(words) if (i + ctx.seed) % 3 == 0] + ['DESC', 'ASC', 'AS', 'NULL', 'OVER', 'IN', 'WHERE', 'VALUES', 'ORDER BY']
+    fill = [w.lower() if i % 2 else w for i, w in enumerate(words)] + CHILD_PIECES
+    for op, cl in PAIRS:
+        for w in fill:
+            yield '%s %s %s' % (op, w, cl)
+            yield 'select %s %s x %s from t' % (op, w, cl)
+            yield 'a %s x %s %s b' % (op, w, cl)
+            if op in '([':
+                yield 'f%s%s%s' % (op, w, cl)
+
+
+def _pinned_child_shape_exceptions():
+    import json, os
+    p = os.path.join(os.path.dirname(__file__), 'C09_child_shape_pinned.json')
+    try:
+        return set(json.load(open(p))['delimiter_not_a_direct_child'])
+    except Exception:
+        return None
+
+
+def child_shape_sweep(ctx):
+    """model-free form of DOMAIN(delimsafe) on a finite family: wherever the leaf-level oracle finds the stack matcher's groups, each group's first
+    child must be its opener token and its last child (before trailing blanks / Comment groups) its closer — except for the inputs pinned in
+    C09_child_shape_pinned.json (the behaviour of the tree the check was written against: content that a later pass joins with a delimiter,
+    e.g. `( := )`, `( x as )`, `( x:: )`); an input that leaves the pinned set is fine, one that enters it is a failure"""
+    pinned = _pinned_child_shape_exceptions()
+    if pinned is None:
+        ctx.notes.append('C09_child_shape_pinned.json missing: child-shape sweep skipped')
+        return
+    n = 0
+    for s in child_shape_inputs(ctx):
+        n += 1
+        try:
+            stmts = sqlparse.parse(s)
+        except Exception as e:
+            ctx.fail('parse raised ' + type(e).__name__, s, observed=repr(e), required='tree')
+            continue
+        ctx.evaluations += 1
+        if not all(child_shape_ok(st) for st in stmts) and s not in pinned:
+            ctx.fail('a bracket/block group does not start with its opener token / end with its closer token as direct children', s,
+                     observed='delimiter wrapped into a sub-group', required='opener first child, closer last child (as on the pinned tree)', sweep='child-shape')
+    ctx.count('child-shape sweep inputs', n)
+
+
 def replay(ctx, payload):
     n0 = len(ctx.failures)
+    if (payload.get('extra') or {}).get('sweep') == 'child-shape':
+        pinned = _pinned_child_shape_exceptions() or set()
+        s = payload['input']
+        if s not in pinned and not all(child_shape_ok(st) for st in sqlparse.parse(s)):
+            ctx.fail('a bracket/block group does not start with its opener token / end with its closer token as direct children', s,
+                     observed='delimiter wrapped into a sub-group', required='opener first child, closer last child (as on the pinned tree)', sweep='child-shape')
+        return len(ctx.failures) > n0
     oracle(ctx, payload['input'])
     return len(ctx.failures) > n0
